@@ -4,6 +4,8 @@ use serde_json::Value;
 
 pub mod c02;
 pub mod c09;
+pub mod c10;
+pub mod e4;
 pub mod mapmodel;
 
 pub fn run(id: &str, tier: Tier) -> i32 {
@@ -11,6 +13,9 @@ pub fn run(id: &str, tier: Tier) -> i32 {
         "C01" | "C03" | "C04" => mapmodel::run(id, tier),
         "C02" => c02::run(tier),
         "C09" => c09::run(tier),
+        "C10" => c10::run(tier),
+        "C11" => e4::run_c11(tier),
+        "C12" => e4::run_c12(tier),
         _ => {
             eprintln!("unknown property {}", id);
             2
@@ -23,6 +28,9 @@ pub fn recheck(id: &str, case: &Value) -> Vec<String> {
         "C01" | "C03" | "C04" => mapmodel::recheck(id, case),
         "C02" => c02::recheck(case),
         "C09" => c09::recheck(case),
+        "C10" => c10::recheck(case),
+        "C11" => e4::recheck_c11(case),
+        "C12" => e4::recheck_c12(case),
         _ => vec![],
     }
 }
